@@ -70,13 +70,13 @@ def draw(rng, i):
     alg = ALGS[i % len(ALGS)]
     nmax = rng.choice([6, 12, 30, 60])
     if alg in ("greedy", "roundrobin"):
-        cls = rng.choice(["ties", "equal", "small", "zeros", "perfect", "powers"])
-        k = rng.choice([1, 2, 3, 3, 4, 5, 7])
+        cls = rng.choice(["ties", "equal", "small", "zeros", "perfect", "powers", "big", "huge"])
+        k = rng.choice([1, 2, 3, 3, 4, 5, 7, 12, 25])
         n = rng.randint(1, nmax)
         return {"kind": "partition", "alg": alg, "k": k, "values": gen.part_values(rng, cls, n, k), "cls": cls, "pres": "list", "pres_seed": 0}
     if alg in ("ff", "ffd", "bf", "bfd"):
         return C.draw_pack_case(rng, alg=alg, cls=rng.choice(["threshold", "threshold", "repeat", "equal", "random", "hardpack", "planted", "zeros", "widerange"]), pres="list", nmax=nmax)
-    return C.draw_cover_case(rng, alg=alg, cls=rng.choice(["threshold", "threshold", "threshold", "equal", "random", "planted", "worst", "toosmall"]), pres="list", nmax=nmax)
+    return C.draw_cover_case(rng, alg=alg, cls=rng.choice(["threshold", "threshold", "threshold", "equal", "random", "planted", "worst", "toosmall", "widerange"]), pres="list", nmax=nmax)
 
 
 def run_shard(spec, rng, ctx):
